@@ -163,6 +163,27 @@ def judge(lines, props, budget=True):
     return viol, stat, cover, traces
 
 
+def crash_half(tier, rnd):
+    """C25, both implementations talking to each other: the C26 schedules (API calls + broker publishes through the real
+    gateway and the real client) executed with the process-death oracle only."""
+    import crash
+    binary = vlib.build_driver("iodrv")
+    scs, states = [], 0
+    for k, c in enumerate(CONFIGS["C26"]):
+        res, scheds = run_mc(c, tier)
+        states += res["distinct"]
+        if tier == "quick" and len(scheds) > QUICK_SAMPLE:
+            scheds = rnd.sample(scheds, QUICK_SAMPLE)
+        scs += [to_scenario(d, "C25-io%d-%d" % (k, i)) for i, d in enumerate(scheds)]
+    lines, problems = execute(scs, binary)
+    violations = []
+    for p in problems:
+        if "panic:" in p["output"]:
+            violations.append({"sig": crash.panic_sig(p["output"]), "what": "process died in " + p["scenario"]["id"] + " (real client + real gateway)",
+                               "replay": {"interop": True, "scenario": p["scenario"], "output": p["output"][-2500:]}})
+    return violations, dict(schedules=len(scs), states=states, process_problems=len(problems))
+
+
 def run(prop, tier, replay=None):
     t0 = time.time()
     rnd = random.Random(vlib.seed())
